@@ -71,7 +71,7 @@ SPECS = {
                                   "gap_stream_sent": 8, "receiver_reloaded_mid_stream": 50, "stale_sender_restored": 15,
                                   "offline_content_seals": 10000, "offline_handshake_keys": 20, "offline_application_keys": 5000,
                                   "offline_repeated_keys_with_distinct_nonce": 10}},
-                show=("histories", "epochs", "delivery", "gap", "refused", "stale", "receiver_reloaded", "offline_"),
+                show=("damaged_copy_first", "histories", "epochs", "delivery", "gap", "refused", "stale", "receiver_reloaded", "offline_"),
                 rule="per epoch several senders stream application and (when handshake encryption is on) handshake messages; one stream has a "
                      "gap of 1021..1026 generations actually encrypted; one sender is restored from a state saved before it sent; every "
                      "receiver gets its own permutation with duplicates and is reloaded mid-stream; every delivery is compared with a ratchet "
